@@ -252,7 +252,7 @@ func record(c *lib.Ctx, cs Case) (Recorded, bool, error) {
 }
 
 func judge(c *lib.Ctx, recs []Recorded) error {
-	bad, err := lib.Judge(c, "JudgeStyledText", c.SpecDir("StyledText"), "JudgeStyledText", recs, c.Pick(2, 6), 10*time.Minute)
+	bad, err := lib.Judge(c, "JudgeStyledText", c.SpecDir("StyledText"), "JudgeStyledText", recs, c.Pick(1, 6), 10*time.Minute)
 	if err != nil {
 		return err
 	}
@@ -272,7 +272,7 @@ func judge(c *lib.Ctx, recs []Recorded) error {
 }
 
 func random(c *lib.Ctx) error {
-	n := c.Pick(2500, 40000)
+	n := c.Pick(1500, 40000)
 	rng := rand.New(rand.NewSource(c.Seed*7919 + 1))
 	var recs []Recorded
 	cases := probes()
